@@ -37,8 +37,12 @@ type acquisition struct {
 	Locker  ssa.Value
 	OkVal   ssa.Value       // TryLock: the ok result
 	Release ssa.Instruction // matching release (Defer or Call), nil if none
-	Defer   bool
-	KeyCall *ssa.Call // the key constructor call (nil for constants)
+	// every release of the matching kind on the Locker (an error exit and the normal
+	// path may each release explicitly); Release is the deferred one if there is one,
+	// else the first
+	Releases []ssa.Instruction
+	Defer    bool
+	KeyCall  *ssa.Call // the key constructor call (nil for constants)
 }
 
 type lockModel struct {
@@ -166,12 +170,37 @@ func (m *lockModel) findRelease(a *acquisition) {
 				continue
 			}
 			// prefer the matching kind; record a mismatching one only if nothing else
+			if cc.Method.Name() == want {
+				a.Releases = append(a.Releases, r)
+			}
 			if cc.Method.Name() == want || a.Release == nil {
 				a.Release = r
 				_, a.Defer = r.(*ssa.Defer)
 			}
 		}
 	}
+	if len(a.Releases) > 1 {
+		sort.Slice(a.Releases, func(i, j int) bool { return a.Releases[i].Pos() < a.Releases[j].Pos() })
+		a.Release = a.Releases[0]
+		_, a.Defer = a.Release.(*ssa.Defer)
+		for _, r := range a.Releases {
+			if _, isD := r.(*ssa.Defer); isD {
+				a.Release, a.Defer = r, true
+				break
+			}
+		}
+	}
+	if len(a.Releases) == 0 && a.Release != nil {
+		a.Releases = []ssa.Instruction{a.Release}
+	}
+}
+
+// explicitReleases: the non-deferred releases (none when the lock is released by a defer).
+func (a *acquisition) explicitReleases() []ssa.Instruction {
+	if a.Defer {
+		return nil
+	}
+	return a.Releases
 }
 
 // startBlockOf: the first block in which the lock is certainly held.
@@ -202,32 +231,37 @@ func (a *acquisition) heldAt(ins ssa.Instruction) bool {
 	}
 	sb, si := a.heldFrom()
 	cut := map[prog.Edge]bool{}
-	var relBlk *ssa.BasicBlock
-	relIdx := -1
-	if a.Release != nil && !a.Defer {
-		relBlk, relIdx = a.Release.Block(), prog.InstrIndex(a.Release)
-		for _, s := range relBlk.Succs {
-			cut[prog.Edge{From: relBlk, To: s}] = true
+	rels := a.explicitReleases()
+	for _, r := range rels {
+		for _, s := range r.Block().Succs {
+			cut[prog.Edge{From: r.Block(), To: s}] = true
 		}
 	}
 	ib, ii := ins.Block(), prog.InstrIndex(ins)
-	if ib == sb && ii > si {
-		if relBlk == sb && relIdx > si && relIdx < ii {
+	for _, r := range rels {
+		relBlk, relIdx := r.Block(), prog.InstrIndex(r)
+		if ib == sb && ii > si && relBlk == sb && relIdx > si && relIdx < ii {
 			return false
 		}
+	}
+	if ib == sb && ii > si {
 		return true
 	}
-	if sb == relBlk && relIdx > si {
-		return false // released in the acquiring block before leaving it
+	for _, r := range rels {
+		if sb == r.Block() && prog.InstrIndex(r) > si {
+			return false // released in the acquiring block before leaving it
+		}
 	}
 	reach := prog.ReachableFrom(sb, cut)
 	if !reach[ib] {
 		return false
 	}
-	if ib == relBlk && relIdx < ii {
-		// reached the release block; the release precedes ins in it — held only
-		// if ib is re-entered after the cut, which the cut forbids
-		return false
+	for _, r := range rels {
+		if ib == r.Block() && prog.InstrIndex(r) < ii {
+			// reached the release block; the release precedes ins in it — held only
+			// if ib is re-entered after the cut, which the cut forbids
+			return false
+		}
 	}
 	return true
 }
@@ -246,22 +280,31 @@ func (a *acquisition) mustHoldAt(ins ssa.Instruction) bool {
 	} else if !sb.Dominates(ins.Block()) {
 		return false
 	}
-	if a.Release != nil && !a.Defer {
-		// released early: held only if the release cannot come between the acquisition and ins
-		rb, ri := a.Release.Block(), prog.InstrIndex(a.Release)
+	// released early: held only if no release can come between the acquisition and ins
+	// (a path that passes the acquisition again holds the lock again)
+	ab := a.Call.Block()
+	for _, r := range a.explicitReleases() {
+		rb, ri := r.Block(), prog.InstrIndex(r)
 		if sb == ins.Block() {
 			// straight-line inside the acquiring block: every entry into the block passes the acquisition first
 			if rb == sb && ri > si && ri < prog.InstrIndex(ins) {
 				return false
 			}
-			return true
+			continue
 		}
-		if prog.MayPrecede(a.Release, ins) {
+		if rb == ins.Block() && ri < prog.InstrIndex(ins) {
 			return false
 		}
-	}
-	if a.Release == nil {
-		return true // (L2 reports the missing release)
+		cut := map[prog.Edge]bool{}
+		for _, p := range ab.Preds {
+			cut[prog.Edge{From: p, To: ab}] = true
+		}
+		if rb != ab && prog.ReachableFrom(rb, cut)[ins.Block()] {
+			return false
+		}
+		if rb == ab && ri > si {
+			return false // released in the acquiring block: not held in any later block
+		}
 	}
 	return true
 }
@@ -422,24 +465,36 @@ func init() {
 					continue
 				}
 				sb, si := a.heldFrom()
-				rb, ri := a.Release.Block(), prog.InstrIndex(a.Release)
-				domOK := (sb == rb && ri > si) || (sb != rb && sb.Dominates(rb))
+				domOK := true
+				var undominated ssa.Instruction
+				inAcquiringBlock := false
+				cut := map[prog.Edge]bool{}
+				relBlocks := map[*ssa.BasicBlock]bool{}
+				for _, r := range a.Releases {
+					rb, ri := r.Block(), prog.InstrIndex(r)
+					if !((sb == rb && ri > si) || (sb != rb && sb.Dominates(rb))) {
+						domOK, undominated = false, r
+					}
+					if sb == rb {
+						inAcquiringBlock = true
+					}
+					relBlocks[rb] = true
+					for _, s := range rb.Succs {
+						cut[prog.Edge{From: rb, To: s}] = true
+					}
+				}
 				if !domOK {
-					x.fail(k, x.pos(a.Release), "the release is not dominated by the (successful) acquisition: it can run without the lock held")
+					x.fail(k, x.pos(undominated), "the release is not dominated by the (successful) acquisition: it can run without the lock held")
 					continue
 				}
-				// every return reachable from the acquisition passes the release/defer
-				cut := map[prog.Edge]bool{}
-				for _, s := range rb.Succs {
-					cut[prog.Edge{From: rb, To: s}] = true
-				}
+				// every return reachable from the acquisition passes a release/defer
 				ok := true
 				var leak string
-				if sb != rb {
+				if !inAcquiringBlock {
 					reach := prog.ReachableFrom(sb, cut)
 					reach[sb] = true
 					for _, r := range prog.Returns(a.Fn) {
-						if reach[r.Block()] && r.Block() != rb {
+						if reach[r.Block()] && !relBlocks[r.Block()] {
 							ok = false
 							leak = x.pos(r)
 						}
